@@ -351,7 +351,11 @@ func (w *World) buildReply(ep *Endpoint, pr *ProbeRec, hp *HopPlan, r *Reply) (b
 			return nil, false
 		}
 		t := codec.BuildTCP(from, ip.Src, seg)
-		b = codec.BuildIPv4(from, ip.Src, codec.ProtoTCP, 60, codec.V4Opts{ID: 0x3333, Flags: 2}, t)
+		vo := codec.V4Opts{ID: 0x3333, Flags: 2}
+		if r.OuterOpts {
+			vo.Options = []byte{7, 11, 8, 198, 51, 100, 1, 0, 0, 0, 0, 1} // record route + padding: IHL 8
+		}
+		b = codec.BuildIPv4(from, ip.Src, codec.ProtoTCP, 60, vo, t)
 		ok = true
 	case "own":
 		b, ok = append([]byte(nil), orig...), true
